@@ -116,10 +116,13 @@ theorem norm_unit_sq (v : V3 ℝ) (hv : 0 < V3.norm v) : V3.dot (V3.unit v) (V3.
 theorem dot_unit (u v : V3 ℝ) : V3.dot (V3.unit u) (V3.unit v) = V3.dot u v / (V3.norm u * V3.norm v) := by
   simp only [V3.dot, V3.unit]; ring
 
-/-- the triad matrix is orthonormal -/
-theorem triad_orthonormal {a b : V3 ℝ} {T : M3 ℝ} (h : triad a b = .ok T) : M3.mul (M3.transpose T) T = M3.id := by
-  obtain ⟨e, pa, p2, p3⟩ := triad_ok h
-  subst e
+/-- the matrix whose columns are the unit vectors along `a`, `(a×b)×a`, `a×b` -/
+def triadMat (a b : V3 ℝ) : M3 ℝ := M3.ofCols (V3.unit a) (V3.unit (V3.cross (V3.cross a b) a)) (V3.unit (V3.cross a b))
+
+/-- it is orthonormal as soon as the three vectors are non-zero -/
+theorem triadMat_orthonormal (a b : V3 ℝ) (pa : 0 < V3.norm a) (p2 : 0 < V3.norm (V3.cross (V3.cross a b) a)) (p3 : 0 < V3.norm (V3.cross a b)) :
+    M3.mul (M3.transpose (triadMat a b)) (triadMat a b) = M3.id := by
+  unfold triadMat
   have u1 := norm_unit_sq a pa
   have u2 := norm_unit_sq _ p2
   have u3 := norm_unit_sq _ p3
@@ -134,6 +137,12 @@ theorem triad_orthonormal {a b : V3 ℝ} {T : M3 ℝ} (h : triad a b = .ok T) : 
     rw [this, zero_div]
   simp only [V3.dot] at u1 u2 u3 o12 o13 o23
   ext <;> simp only [M3.mul, M3.transpose, M3.ofCols, M3.id, rs_one, rs_zero] <;> linarith
+
+/-- the triad matrix is orthonormal -/
+theorem triad_orthonormal {a b : V3 ℝ} {T : M3 ℝ} (h : triad a b = .ok T) : M3.mul (M3.transpose T) T = M3.id := by
+  obtain ⟨e, pa, p2, p3⟩ := triad_ok h
+  subst e
+  exact triadMat_orthonormal a b pa p2 p3
 
 theorem triad_det_ne {a b : V3 ℝ} {T : M3 ℝ} (h : triad a b = .ok T) : M3.det T ≠ 0 := by
   intro h0
@@ -154,20 +163,18 @@ theorem calcUb_recovers (B : M3 ℝ) (U0 : M3 ℝ) (hU : IsRot U0) (r1 r2 : Ref 
   have e := triad_equivariant hU _ _ k1 k2 hk1 hk2 Tc Tp hc hp
   rw [← hres, e, M3.mul_assoc', M3.mul_inv_cancel Tc (triad_det_ne hc), M3.mul_id]
 
-/-- both triads are right-handed: `t1 · (t2 × t3) = 1` -/
-theorem triad_det_one {a b : V3 ℝ} {T : M3 ℝ} (h : triad a b = .ok T) : M3.det T = 1 := by
-  obtain ⟨e, pa, p2, p3⟩ := triad_ok h
-  have hsq : M3.det T * M3.det T = 1 := by
-    have := congrArg M3.det (triad_orthonormal h)
+/-- and right-handed -/
+theorem triadMat_det_one (a b : V3 ℝ) (pa : 0 < V3.norm a) (p2 : 0 < V3.norm (V3.cross (V3.cross a b) a)) (p3 : 0 < V3.norm (V3.cross a b)) :
+    M3.det (triadMat a b) = 1 := by
+  have hsq : M3.det (triadMat a b) * M3.det (triadMat a b) = 1 := by
+    have := congrArg M3.det (triadMat_orthonormal a b pa p2 p3)
     rw [M3.det_mul, M3.det_transpose] at this
     simpa [M3.det, M3.id] using this
-  -- the determinant is positive: it equals |a×b|²·|a|² / (|a|·|(a×b)×a|·|a×b|)
-  have hpos : 0 < M3.det T := by
-    subst e
-    have hd : M3.det (M3.ofCols (V3.unit a) (V3.unit (V3.cross (V3.cross a b) a)) (V3.unit (V3.cross a b)))
+  have hpos : 0 < M3.det (triadMat a b) := by
+    have hd : M3.det (triadMat a b)
         = (V3.dot (V3.cross a b) (V3.cross a b) * V3.dot a a) / (V3.norm a * V3.norm (V3.cross (V3.cross a b) a) * V3.norm (V3.cross a b)) := by
       have n1 := pa.ne'; have n2 := p2.ne'; have n3 := p3.ne'
-      simp only [M3.det, M3.ofCols, V3.unit, V3.cross, V3.dot]
+      simp only [triadMat, M3.det, M3.ofCols, V3.unit, V3.cross, V3.dot]
       field_simp
       ring
     rw [hd]
@@ -180,6 +187,15 @@ theorem triad_det_one {a b : V3 ℝ} {T : M3 ℝ} (h : triad a b = .ok T) : M3.d
         nlinarith [sq_nonneg (V3.cross a b).x, sq_nonneg (V3.cross a b).y, sq_nonneg (V3.cross a b).z, sq_pos_of_ne_zero h]
     positivity
   nlinarith
+
+theorem triadMat_isRot (a b : V3 ℝ) (pa : 0 < V3.norm a) (p2 : 0 < V3.norm (V3.cross (V3.cross a b) a)) (p3 : 0 < V3.norm (V3.cross a b)) :
+    IsRot (triadMat a b) := ⟨triadMat_orthonormal a b pa p2 p3, triadMat_det_one a b pa p2 p3⟩
+
+/-- both triads are right-handed: `t1 · (t2 × t3) = 1` -/
+theorem triad_det_one {a b : V3 ℝ} {T : M3 ℝ} (h : triad a b = .ok T) : M3.det T = 1 := by
+  obtain ⟨e, pa, p2, p3⟩ := triad_ok h
+  subst e
+  exact triadMat_det_one a b pa p2 p3
 
 /-- **C07, arbitrary data**: whatever the two references are (as long as neither pair is parallel), `U` is a proper rotation -/
 theorem calcUb_proper (B : M3 ℝ) (r1 r2 : Ref ℝ) (U : M3 ℝ) (hres : fromTwo B r1 r2 = .ok U) : IsRot U := by
